@@ -34,6 +34,7 @@ type DPCall struct {
 	Fault   string `json:"fault,omitempty"`
 	Reports int    `json:"reports,omitempty"`
 	FIdx    int    `json:"fidx"` // index among faultable calls (-1 for removes)
+	RIdx    int    `json:"ridx"` // index among remove calls (-1 for the others)
 }
 
 // Tap is the driver object handed to the PFCP server. It logs every call,
@@ -47,9 +48,12 @@ type Tap struct {
 	Tag    int
 	Faults map[int]string // faultable-call index -> "na" (fail, not applied) | "ap" (fail, applied)
 	nFault int
-	Delay  func(c *DPCall) // optional latency inside the call (a real suspension point)
-	Quiet  bool            // do not keep the call log (stress runs)
-	NCalls int64
+	// RemFaults: remove-call index -> "na": the data plane refuses the removal (the rule stays installed)
+	RemFaults map[int]string
+	nRem      int
+	Delay     func(c *DPCall) // optional latency inside the call (a real suspension point)
+	Quiet     bool            // do not keep the call log (stress runs)
+	NCalls    int64
 }
 
 var ErrInjected = fmt.Errorf("injected data-plane failure")
@@ -58,7 +62,7 @@ func (t *Tap) Close()                        { t.Inner.Close() }
 func (t *Tap) HandleReport(h report.Handler) { t.Inner.HandleReport(h) }
 
 func (t *Tap) do(op, kind string, seid uint64, id uint64, idok bool, faultable bool, call func() (int, error)) error {
-	c := DPCall{Idx: len(t.Calls), Tag: t.Tag, Op: op, Kind: kind, SEID: seid, ID: id, IDOK: idok, FIdx: -1}
+	c := DPCall{Idx: len(t.Calls), Tag: t.Tag, Op: op, Kind: kind, SEID: seid, ID: id, IDOK: idok, FIdx: -1, RIdx: -1}
 	t.NCalls++
 	var err error
 	var n int
@@ -69,6 +73,12 @@ func (t *Tap) do(op, kind string, seid uint64, id uint64, idok bool, faultable b
 			mode = t.Faults[t.nFault]
 		}
 		t.nFault++
+	} else if op == "Remove" {
+		c.RIdx = t.nRem
+		if t.RemFaults != nil && t.RemFaults[t.nRem] == "na" {
+			mode = "na"
+		}
+		t.nRem++
 	}
 	if t.Delay != nil {
 		t.Delay(&c)
